@@ -1178,6 +1178,25 @@ func addqAttacks(c *Case) []Attack {
 	return out
 }
 
+// flagAlters: the three flag bits (compression, infinity, sign) of every compressed G1 point of the proof.
+func flagAlters(c *Case) []Attack {
+	n := len(c.Msgs)
+	offs, names, _ := proofLayout(n, n-len(dedup(c.R)))
+
+	var out []Attack
+
+	for i, nm := range names {
+		switch nm {
+		case "aprime", "abar", "d", "c1", "c2":
+			for _, bit := range []int{0x80, 0x40, 0x20} {
+				out = append(out, Attack{Kind: "alter", Label: nm + "-flag", Pos: offs[i], Byte: bit})
+			}
+		}
+	}
+
+	return out
+}
+
 // structuralAlters: every single-bit flip of every byte of the structural fields (count, bit vector, the three
 // length / count fields), which decide how the rest of the proof is read.
 func structuralAlters(c *Case) []Attack {
@@ -1516,6 +1535,7 @@ func main() {
 		c.Attacks = append([]Attack{{Kind: "honest"}}, structuralAlters(c)...)
 		c.Attacks = append(c.Attacks, alterAttacks(c, r, 24, false)...)
 		c.Attacks = append(c.Attacks, addqAttacks(c)...)
+		c.Attacks = append(c.Attacks, flagAlters(c)...)
 		runCase("alter", c, tr)
 	}
 
